@@ -405,6 +405,12 @@ class ImplRun:
                 os.kill(self.d.proc.pid, signal.SIGCONT)
             for cid in hung_up:
                 self._wait_gone(cid)
+        elif op[0] == "reload":
+            # a new security policy: the configuration file is rewritten and the daemon told to read it again (SIGHUP reaches its
+            # main loop through a pipe: it has been served once two round trips have gone through after it)
+            self.d.reload(Policy([tuple(r) for r in op[1]]).to_xml())
+            time.sleep(0.01)
+            self._ctl_sync(2)
         elif op[0] == "stall":
             self._stall(op[1])
         elif op[0] == "unstall":
@@ -603,6 +609,12 @@ def op_lines(ops, fdmode=False, groups=None, orders=None):
     dirty = set()
     flat = []
     for idx, op in enumerate(ops):
+        if op[0] == "reload":
+            pl = Policy([tuple(r) for r in op[1]]).to_model()
+            flat.append(("modellines", ["bus reload-begin"] + pl + ["bus reload"]))
+            if groups is not None:
+                groups.append(len(pl) + 2)
+            continue
         if op[0] == "frozen":
             inner = frozen_order(op[1], (orders or {}).get(idx))
             flat.extend(inner)
@@ -613,6 +625,8 @@ def op_lines(ops, fdmode=False, groups=None, orders=None):
             if groups is not None:
                 groups.append(1)
     for op in flat:
+        if op[0] == "modellines":
+            lines.extend(op[1]); continue
         if op[0] == "fdsleep":
             lines.append("bus fdtimeout"); continue
         if fdmode and op[0] in ("send", "raw", "fdsend"):
@@ -832,6 +846,9 @@ def impl_trace(ops, policy=SESSION, limits=None, extra=""):
 def show_op(op):
     if op[0] == "frozen":
         return "frozen " + ";".join(show_op(s).replace(" ", ",") for s in op[1])
+    if op[0] == "reload":
+        import json as _json
+        return "reload " + _json.dumps([list(r) for r in op[1]]).encode().hex()
     if op[0] == "send":
         return "send %d %s" % (op[1], op[2].hex())
     if op[0] == "fdsend":
@@ -847,6 +864,9 @@ def parse_op(s):
     t = s.split()
     if t[0] == "frozen":
         return ("frozen", [parse_op(x.replace(",", " ")) for x in t[1].split(";")])
+    if t[0] == "reload":
+        import json as _json
+        return ("reload", [tuple(r) for r in _json.loads(bytes.fromhex(t[1]).decode())])
     if t[0] == "send":
         return ("send", int(t[1]), bytes.fromhex(t[2]))
     if t[0] == "connect":
